@@ -106,6 +106,16 @@ fn datetime_laws(ctx: &mut Ctx, rng: &mut Rng) {
                 let got = t + TimeDelta { months: m, inner: Duration::zero() };
                 if got.as_cr() == Some(want) || DateTime::<A>::from(want) == got { Ok(()) } else { Err(format!("{t:?} + {m} months = {got:?}, chrono says {want:?} [{}]", UNAME[u])) }
             }));
+            // subtracting calendar months: t - m months is t + (-m) months (negation in the duration group)
+            law(ctx, "sub_months", format!("sm|{key}|{}", m.signum()), catch(|| {
+                let want: Option<CrDateTime<Utc>> = t.as_cr().and_then(|c| if m >= 0 { c.checked_sub_months(Months::new(m as u32)) } else { c.checked_add_months(Months::new((-m) as u32)) });
+                let Some(want) = want else { return Ok(()) };
+                if !(1678..=2261).contains(&want.year()) {
+                    return Ok(());
+                }
+                let got = t - TimeDelta { months: m, inner: Duration::zero() };
+                if got.as_cr() == Some(want) || DateTime::<A>::from(want) == got { Ok(()) } else { Err(format!("{t:?} - {m} months = {got:?}, chrono says {want:?} [{}]", UNAME[u])) }
+            }));
         });
     }
 }
@@ -234,7 +244,7 @@ fn nat_laws(ctx: &mut Ctx, rng: &mut Rng) {
 
 fn main() {
     let mut ctx = Ctx::from_args("C17");
-    let n = ctx.budget(20000, 400000);
+    let n = ctx.cbudget(20000, 400000);
     for _ in 0..n {
         if let Some(mut rng) = ctx.random_case() {
             datetime_laws(&mut ctx, &mut rng);
